@@ -171,6 +171,9 @@ REPLIES = ['0', '1', '0,2', '1-2', '2-1', '0-0', '9', '0,9', 'x', '', ' 1', '1-2
 def scenario(eset, pa, sort, reply):
     nodes = [W.d('/h'), W.d('/v/a'), W.d('/v/b'), W.d('/v/zzz'), W.f('/v/keep', 'KEEP', 0o644, 800)]
     td = '/v/.Trash-1000'
+    # a neighbour without a Path line, read BEFORE every well-formed entry: it is reported, the scan goes on
+    nodes += [W.d(td, 0o700), W.d(td + '/files', 0o700), W.d(td + '/info', 0o700),
+              W.f(td + '/info/0bad.trashinfo', '[Trash Info]\nDeletionDate=2020-01-01T00:00:00\n', 0o600, 1990)]
     for j, li in enumerate(SETS[eset]):
         loc = LOCS[li]
         nodes += K.trashed(td, 'e%d' % j, K.quote(loc[len('/v/'):]), DATES[li], 'file' if li != 2 else 'dir', 2000 + 20 * j)
